@@ -26,7 +26,7 @@ CONSTANTS Depth, MaxCalls,
 
 EC == INSTANCE ErrorChannel WITH Kinds <- {}, CheckFaults <- {}, InferFaults <- {}, Msgs <- {}, OutsiderMsgs <- {},
                                  InferMsgs <- {}, MaxN <- 1, Variants <- 1,
-                                 c <- 0, pc <- "shared", origin <- 0, inner <- 0, esc <- 0, trail <- <<>>
+                                 c <- 0, pc <- "shared", origin <- 0, inner <- 0, esc <- 0, ret <- 0, trail <- <<>>
 
 Objects == 1..Depth
 IsList(o) == o < Depth
